@@ -26,11 +26,11 @@ def make_body(rng, blen, nlstyle):
     return bytes(b), sorted(set(pos))
 
 
-def frame(body, framing, layout, trailers=b"", ext=False):
+def frame(body, framing, layout, trailers=b"", ext=False, method=b"POST"):
     """-> head+framed body"""
     if framing == "len":
-        return b"POST /b HTTP/1.1\r\nHost: h\r\nContent-Length: %d\r\n\r\n" % len(body) + body
-    out = [b"POST /b HTTP/1.1\r\nHost: h\r\nTransfer-Encoding: chunked\r\n\r\n"]
+        return method + b" /b HTTP/1.1\r\nHost: h\r\nContent-Length: %d\r\n\r\n" % len(body) + body
+    out = [method + b" /b HTTP/1.1\r\nHost: h\r\nTransfer-Encoding: chunked\r\n\r\n"]
     p = 0
     for i, sz in enumerate(layout):
         if sz <= 0:
